@@ -93,3 +93,45 @@ def _c14_reconnect(p):
 def _c14_reflect(p):
     # conn_prop code 6: as above, the spliced frames were sealed by the receiver itself (opposite direction)
     return not p.get("corr") and p.get("code") == 6
+
+
+
+# ---------------------------------------------------------------- C18
+
+def _single_edit(a, b):
+    """b is a by exactly one substituted, deleted or inserted character"""
+    if a == b or abs(len(a) - len(b)) > 1:
+        return False
+    i = 0
+    while i < min(len(a), len(b)) and a[i] == b[i]:
+        i += 1
+    if len(a) == len(b):
+        return a[i + 1:] == b[i + 1:]
+    if len(a) > len(b):
+        return a[i + 1:] == b[i:]
+    return a[i:] == b[i + 1:]
+
+
+@predicate("R16")
+def _c18_delegate_edit(p):
+    """exactly: single-character edit of a delegate-form text accepted as a different delegate address"""
+    if p.get("corr") or p.get("code") != 16:
+        return False
+    d = (p.get("record") or {}).get("data") or {}
+    if d.get("kind") != "edit" or d.get("form") != "delegate":
+        return False
+    pre = "delegate"
+    text, edited, res = d.get("text", ""), d.get("edited", ""), d.get("parse") or {}
+    if not (text.startswith(pre) and text[len(pre):].isascii() and text[len(pre):].isdigit()):
+        return False
+    if not (edited.startswith(pre) and edited[len(pre):].isascii() and edited[len(pre):].isdigit()):
+        return False
+    if not _single_edit(text, edited):
+        return False
+    if res.get("ok") is not True or res.get("payment_id") != 0:
+        return False
+    orig, got = d.get("addr", ""), res.get("addr", "")
+    if len(orig) != len(got) or len(got) < 16 or orig == got:
+        return False
+    zero_head = "0" * (len(got) - 16)          # delegate form: every byte but the last eight is zero
+    return got.startswith(zero_head) and orig.startswith(zero_head) and d.get("payment_id") == 0
